@@ -185,6 +185,23 @@ fn error_propagation_table(rep: &mut Report, args: &Args) {
             }
         }
     }
+    // (a') no element, no call: over an empty array the body of the reference is never evaluated, whatever it
+    // contains; and constant-looking arguments are evaluated per element (a multi-select is null on a null element)
+    for (body, _) in bad_calls.iter() {
+        for text in [format!("map(&{}, `[]`)", body), format!("sort_by(`[]`, &{})", body), format!("`[]`[*].{}", body), format!("`[]`[?{}]", body), format!("max_by(`[]`, &{}) || `[]`", body)] {
+            check_succeeds(rep, &text, &json!({"a": 1}), "empty-array/body-never-evaluated");
+        }
+    }
+    let mixed = json!({"xs": [1, null, 2], "os": [{"v": [1]}, null]});
+    for (text, class) in [
+        ("xs[?contains([`1`, `2`], @)]", "type"), ("xs[?length([`1`]) == `1`]", "type"), ("map(&sum([`1`, `2`]), xs)", "type"), ("map(&length({a: `1`}), os)", "type"),
+        ("xs[?starts_with(['a'][0], 'a')]", "type"),
+    ] {
+        check_fails(rep, text, &mixed, class, "constant-looking-argument/per-element");
+    }
+    for text in ["map(&a | b, recs)", "map(&a || b, recs)", "sort_by(recs, &a | b)", "max_by(recs, &(a | b))", "map(&a.b | [0], recs)", "map(&!a, recs)", "sort_by(recs, &b || `0`)"] {
+        check_succeeds(rep, text, &json!({"recs": [{"a": {"b": 2}, "b": 1}, {"a": {"b": 1}, "b": 2}]}), "operator-body-in-reference");
+    }
     // (b) operands
     let lefts = ["name", "`null`", "`1`", "`false`", "`[]`", "'s'", "missing"];
     let truthy = [true, false, true, false, false, true, false];
